@@ -186,6 +186,8 @@ func runRelay(c *fw.Ctx, sc relayScenario, rng *rand.Rand) (res relayResult) {
 	pub := res.Pub
 	ix := gen.NewIndex(pub)
 	var live []*liveConsumer
+	var hook *srv.HookSession
+	nonEmpty := 0
 	join := func(p consumerPlan, k int) {
 		rec := &consumerRec{Plan: p, Kind: p.Kind, JoinK: k, LeftAt: -1, IncStart: incStart}
 		res.Consumers = append(res.Consumers, rec)
@@ -201,6 +203,13 @@ func runRelay(c *fw.Ctx, sc relayScenario, rng *rand.Rand) (res relayResult) {
 			return
 		}
 		rec.Admitted = true
+		if ev, ok := s.Notify.WaitSession(time.Millisecond, "sub_start", lc.localAddr()); ok {
+			hc := -1
+			if hook != nil {
+				hc = hook.Count()
+			}
+			rec.Note = fmt.Sprintf("diag: sub_start event at %s, observed %s, hook count %d, nonEmpty %d; ", ev.At.Format("05.000000"), time.Now().Format("05.000000"), hc, nonEmpty)
+		}
 		if lc.rtmp != nil {
 			lc.base = lc.rtmp.RC.BytesRead()
 		} else {
@@ -214,8 +223,6 @@ func runRelay(c *fw.Ctx, sc relayScenario, rng *rand.Rand) (res relayResult) {
 		}
 	}
 	var pr *ref.RtmpPublisher
-	var hook *srv.HookSession
-	nonEmpty := 0
 	connectPub := func() bool {
 		var err error
 		pr, err = ref.StartRtmpPublisher(s.RtmpAddr(), "live", sc.Stream, 5*time.Second)
@@ -370,6 +377,9 @@ func runRelay(c *fw.Ctx, sc relayScenario, rng *rand.Rand) (res relayResult) {
 			nonEmpty++
 			for _, lc := range live {
 				lc.fed = true
+				if lc.rec.JoinK == i {
+					lc.rec.Note += fmt.Sprintf("message %d sent at %s; ", i, time.Now().Format("05.000000"))
+				}
 			}
 		}
 		if i%96 == 95 {
@@ -397,6 +407,9 @@ func runRelay(c *fw.Ctx, sc relayScenario, rng *rand.Rand) (res relayResult) {
 	for _, lc := range live {
 		if lc.rtmp != nil {
 			lc.rec.Items = mapRtmp(ix, lc.rtmp.Hist.Snapshot())
+			if ts := lc.rtmp.Hist.Times(); len(ts) > 0 {
+				lc.rec.Note += fmt.Sprintf("first item arrived %s, last %s; ", ts[0].Format("05.000000"), ts[len(ts)-1].Format("05.000000"))
+			}
 			if e := lc.rtmp.Hist.Err; e != nil && lc.rec.LeftAt < 0 && !isClosedErr(e) {
 				lc.rec.ParseErr = e.Error()
 			}
